@@ -19,33 +19,36 @@ ASSUMPTIONS = [
     "atom+bond descriptors; skeleton with stereo changes), each explored to its own depth bound",
     "deep histories: a fixed family of long (600 / 3000 step) alphabet cycles with coprime strides on one live object",
 ]
-BUDGET = {"quick": 150, "thorough": 1500}
+BUDGET = {"quick": 900, "thorough": 3600}
 EXHAUSTIVE = False   # complete up to the stated depth bound per class and pass, but no fixpoint is reached
 PLAN = {
     # kind: (passA depth quick, passA depth thorough, passB depth quick, passB depth thorough)
-    RG.MG: (8, 14, 4, 5),
-    RG.CRG: (6, 8, 3, 4),
-    RG.SMG: (6, 8, 3, 4),
-    RG.SCRG: (5, 7, 3, 4),
+    RG.MG: (8, 11, 4, 5),
+    RG.CRG: (6, 7, 3, 4),
+    RG.SMG: (6, 7, 3, 4),
+    RG.SCRG: (5, 6, 3, 4),
 }
 # BFS depth from the non-initial roots of bfs.roots() (quick, thorough)
-ROOT_DEPTH = {RG.CRG: (3, 5), RG.SMG: (3, 5), RG.SCRG: (3, 4)}
+ROOT_DEPTH = {RG.CRG: (3, 4), RG.SMG: (3, 4), RG.SCRG: (3, 4)}
 
 
 def drive(ctx):
     tier = ctx.tier
     allstats = []
-    for kind, (aq, at, bq, bt) in PLAN.items():
-        da, db = (aq, bq) if tier == "quick" else (at, bt)
-        allstats.append(bfs.explore(ctx, kind, MODE, da, False, tier, label=f"{kind}/A"))
-        allstats.append(bfs.explore(ctx, kind, MODE, db, True, tier, label=f"{kind}/B"))
-    for kind, (rq, rt) in ROOT_DEPTH.items():
-        for name, hist in bfs.roots(kind):
-            allstats.append(bfs.explore(ctx, kind, MODE, rq if tier == "quick" else rt, False, tier,
-                                        label=f"{kind}/A/root:{name}", root=hist))
-    deep = [it for kind in PLAN for it in bfs.deep_items(kind, MODE, tier)]
-    ctx.pmap(bfs.deep_walk, deep)
-    allstats.append({"deep_histories": len(deep), "length_bound": deep[0]["len"]})
+    # thorough: the complete quick plan first (so that a budget cap can only cut the extra depth), then the deeper plan
+    for t in (("quick", "thorough") if tier == "thorough" else ("quick",)):
+        for kind, (aq, at, bq, bt) in PLAN.items():
+            da, db = (aq, bq) if t == "quick" else (at, bt)
+            allstats.append(bfs.explore(ctx, kind, MODE, da, False, tier, label=f"{kind}/A/{t}-plan"))
+            allstats.append(bfs.explore(ctx, kind, MODE, db, True, tier, label=f"{kind}/B/{t}-plan"))
+        for kind, (rq, rt) in ROOT_DEPTH.items():
+            for name, hist in bfs.roots(kind):
+                allstats.append(bfs.explore(ctx, kind, MODE, rq if t == "quick" else rt, False, tier,
+                                            label=f"{kind}/A/root:{name}/{t}-plan", root=hist))
+        if t == "quick":
+            deep = [it for kind in PLAN for it in bfs.deep_items(kind, MODE, tier)]
+            ctx.pmap(bfs.deep_walk, deep)
+            allstats.append({"deep_histories": len(deep), "length_bound": deep[0]["len"]})
     ctx.extra["exploration"] = allstats
     ctx.extra["exhaustive_within_depth_bound"] = not ctx.capped
     ctx.distinct = ctx.states
